@@ -85,7 +85,7 @@ def gen_tally_case(sd, idx):
     order = sum(sub.values())
     cnt_ = r.randint(4, 15)
     combos = {"A+A": cnt_ * (cnt_ - 1), "A": cnt_, "A+B": cnt_ * cnt_, "0": 1, "3A": cnt_ * (cnt_ - 1) * (cnt_ - 2)}[form]
-    lam_target = r.choice([0.7, 2.0, 6.0, 20.0])
+    lam_target = r.choice([0.7, 2.0, 6.0, 20.0, 150.0, 400.0])     # also above 100, where samplers tend to switch algorithm
     dt = 1.0
     Vm = sum(gen.cell_vols(space)) / gen.ncells(space)
     k = lam_target / (combos * Vm ** (1 - order) * dt)
